@@ -18,7 +18,8 @@ def handlers : List (List Sexp → Option Sexp) :=
     Driver.wordPathsHandle,
     Driver.sugarHandle,
     Driver.heapHandle,
-    Driver.infixHandle ]
+    Driver.infixHandle,
+    Driver.quotedHandle ]
 
 def dispatch (line : String) : String :=
   match Sexp.parseAll line with
